@@ -205,11 +205,13 @@ Value Endgame<kKPK>::strongSideScore(const Position& position) const
     Square strongPawn =
         position.piece_position(make_piece(strongSide, PAWN), 0);
 
+    // after normalisation the strong side is WHITE, so the pawn's rank is
+    // already relative to the strong side
     bitbase::normalize(strongSide, side, strongKingSq, strongPawn, weakKingSq);
     if (!bitbase::check(side, strongKingSq, strongPawn, weakKingSq))
-        return VALUE_POSITIVE_DRAW + Value(rank(normalize(strongPawn, strongSide)));
+        return VALUE_POSITIVE_DRAW + Value(rank(strongPawn));
 
-    return VALUE_KNOWN_WIN + Value(rank(normalize(strongPawn, strongSide)));
+    return VALUE_KNOWN_WIN + Value(rank(strongPawn));
 }
 
 template <>
